@@ -104,8 +104,22 @@ def plant_reified(rng, node, rm, counter=None):
                 out.append((sr + '-of', (rf, [('/', concept), (tr, rf)])))
             elif x < 0.2 and not isinstance(t, tuple):
                 out.append((tr + '-of', (rf, [('/', concept), (sr, rf)])))
+            elif x < 0.3:
+                # a node with a dereifiable concept whose two roles do not fit the table (the model
+                # refuses to dereify it): it stays, and so does everything after it
+                out.append((sr + '-of', (rf, [('/', concept), (':zz9', t)])))
             else:
-                out.append((sr + '-of', (rf, [('/', concept), (tr, t)])))
+                extra = []
+                y = rng.random()
+                if y < 0.15:
+                    # a third relation on the relation node that repeats one of the reification's own
+                    # roles (two distinct roles, three relations): the node is not collapsible
+                    counter[0] += 1
+                    extra = [(rng.choice([tr, sr]),
+                              rng.choice(['8', '"t"', 'kk', (f'rx{counter[0]}', [('/', 'thing')])]))]
+                elif y < 0.22:
+                    extra = [(rng.choice([':polarity', ':ARG3', ':x']), '-')]
+                out.append((sr + '-of', (rf, [('/', concept), (tr, t)] + extra)))
         else:
             out.append((r, t))
     return (v, out)
